@@ -38,7 +38,7 @@ def _cfg(tier):
     return Cfg(nvars=(1, 3), pool=(2, 5), dom=(1, 3), max_product=27,
                profile="falsy" if "falsy_values" not in avoid else "clean", max_depth=2, allow_empty_cond=True,
                select="all", desc=("entity", "set_of"), force_relate=True, noise=True, dom_kinds=("list", "tuple"),
-               allow_nested_not="not_under_not" not in avoid)
+               allow_nested_not="not_under_not" not in avoid, clones=(1, 3))
 
 
 @st.composite
